@@ -136,6 +136,18 @@ def h_step(ctx):
              z3.BoolVal(snapshot(aut) == before), kind='frame')
     w.canary('step.canary: r == CPre(E, S, ~T)',
              spec.equiv(w, tr, cpre(tE, tS, z3.Not(tT))))
+    # no hidden state: the same call on the same automaton after changing the
+    # mode attributes obeys the contract of the NEW mode
+    for m2, p2 in ((not ctx.p['moore'], ctx.p['plus_one']),
+                   (ctx.p['moore'], not ctx.p['plus_one'])):
+        aut.moore, aut.plus_one = m2, p2
+        r2 = ctx.call(step, E, S, T, aut, label='step')
+        w.oblige('step.post (same automaton, mode attributes changed between calls): r == CPre of the current mode',
+                 spec.equiv(w, w.term(r2), spec.cpre(w, tE, tS, tT, m2, p2)))
+    aut.moore, aut.plus_one = ctx.p['moore'], ctx.p['plus_one']
+    r3 = ctx.call(step, E, S, T, aut, label='step')
+    w.oblige('step.post: repeating the call gives an equivalent result',
+             spec.equiv(w, w.term(r3), tr))
     # second canary: the other quantifier order / causality, only where the
     # shape makes them differ is not known statically, so it is informational
     if not (w.shape.env and w.shape.sys):
